@@ -99,6 +99,28 @@ class Bindings:
             return (pr["op"], pr["line"])
         return ("unit", 0)
 
+    def block_chain(self, stmt_id):
+        """compound statements whose blocks enclose the row, innermost first: [(op, line)...], up to (excluding)
+        the enclosing method_decl / class_decl / unit; second result: True if that enclosing scope is the unit
+        (directly or through %unit_init)."""
+        out = []
+        r = self.rows.get(stmt_id)
+        if r is None:
+            return out, False
+        p = r["parent"]
+        n = 0
+        while p and p in self.rows and n < 10000:
+            pr = self.rows[p]
+            n += 1
+            if pr["op"] == "block_start":
+                p = pr["parent"]
+                continue
+            if pr["op"] in SCOPE_OPS:
+                return out, (pr["op"] == "method_decl" and pr["name"] == "%unit_init")
+            out.append((pr["op"], pr["line"]))
+            p = pr["parent"]
+        return out, True
+
     def describe(self, symbol_id):
         """-> dict(kind='decl'|'module'|'unresolved'|'dangling', ...)"""
         sid = symbol_id
